@@ -1,6 +1,6 @@
 (* C05 - HEVC pass-through commands neither lose, alter nor reorder NAL units. *)
 From Coq Require Import List NArith ZArith Bool.
-From DV Require Import Outcome Bits BitIO Rpu Ops Stream StreamProofs.
+From DV Require Import Outcome Bits BitIO Rpu Ops Stream StreamProofs Splitter SplitterProofs.
 Import ListNotations.
 Open Scope N_scope.
 
@@ -30,5 +30,31 @@ Theorem C05_four_byte_start_codes : forall p cfg o batches out,
   Forall (fun w => fst w = 4) (out_main out) /\ Forall (fun w => fst w = 4) (out_el out).
 Proof. exact four_byte_start_codes. Qed.
 
+(* BYTES -> NAL BATCHES (hevc_parser's chunked Annex B reader under dovi_tool's chunk size): for every
+   chunk size >= 1 and every way the input arrives in reads - a read shorter than the chunk size only at
+   the end of the input, as a file and a drained pipe deliver it - the NALs handed to the command, batch
+   after batch, are the NALs of the whole input split in one piece: no NAL is lost, duplicated, cut or
+   merged at a chunk boundary, wherever start codes (3 or 4 bytes) fall relative to it. Together with
+   C05_route_refines_spec (any batching = the flat spec) the outputs do not depend on the chunk size. *)
+Theorem C05_reader_chunk_invariant : forall cs reads,
+  (1 <= cs)%nat -> schedule_ok cs reads ->
+  concat (parse_nalus cs reads) = split_whole (concat reads).
+Proof. exact parse_nalus_chunk_invariant. Qed.
+
+(* a file read through a reader that fills every request until the end of the file *)
+Theorem C05_file_chunk_size_irrelevant : forall cs file,
+  (1 <= cs)%nat -> concat (parse_nalus cs (read_file cs file)) = split_whole file.
+Proof. exact read_file_chunk_invariant. Qed.
+
+(* the hypothesis on the reads is exactly what is needed: one short read in the middle of the input is
+   taken for its end and a NAL is cut in two (what a reader buffer smaller than the request produces) *)
+Theorem C05_short_read_breaks_it :
+  let file := [0;0;1;64;1;7;7;7;7; 0;0;1;66;1;9] in
+  concat (parse_nalus 8 [firstn 6 file; skipn 6 file]) <> split_whole file
+  /\ concat (parse_nalus 8 (read_file 8 file)) = split_whole file.
+Proof. exact short_read_in_the_middle. Qed.
+
 Print Assumptions C05_convert_identity.
+Print Assumptions C05_reader_chunk_invariant.
+Print Assumptions C05_file_chunk_size_irrelevant.
 Print Assumptions C05_batching_irrelevant.
